@@ -26,6 +26,7 @@ type meshOpts struct {
 	tryInterval        time.Duration
 	extra              func(i int, spec *nodeSpec) // per node config tweaks
 	noFaults           bool
+	forceLH            bool // node 0 is a lighthouse, the others discover each other through it
 	forceRelay         bool // node 0 is lighthouse+relay and every endpoint pair lacks a direct path
 	secondRelay        bool // the last node is a second relay (not a lighthouse), advertised by the endpoints too
 }
@@ -75,6 +76,9 @@ func buildMesh(rc *sk.RunCtx, o meshOpts) *meshWorld {
 	mw.notBefore, mw.notAfter = now.Add(-time.Hour), now.Add(1000*time.Hour)
 	mw.ca = newSimCA(cert.Version2, curve, "sim-ca", now.Add(-2*time.Hour), now.Add(2000*time.Hour), nil, nil, nil)
 	mw.useLH = o.allowLighthouse && tp.Chance(1, 2)
+	if o.forceLH {
+		mw.useLH = true
+	}
 	mw.useRelay = o.allowRelay && n >= 3 && tp.Chance(2, 3)
 	if o.forceRelay {
 		mw.useRelay = true
